@@ -175,6 +175,7 @@ type E3 struct {
 	pureCalls   map[*ssa.Function]map[string]ssa.Value
 	loadMemoAny map[*ssa.UnOp]ssa.Value
 	finv        map[fieldKey]*fieldInv
+	fnUse       map[*ssa.Function]*fnUseT
 }
 
 type retKey struct {
@@ -357,6 +358,124 @@ func (e *E3) immutableFreeVar(fv *ssa.FreeVar) bool {
 		}
 	})
 	return found && okAll
+}
+
+// freeVarValue returns the one value an immutable captured variable holds (nil when unknown).
+func (e *E3) freeVarValue(fv *ssa.FreeVar) ssa.Value {
+	if !e.immutableFreeVar(fv) {
+		return nil
+	}
+	g := fv.Parent()
+	idx := -1
+	for j, q := range g.FreeVars {
+		if q == fv {
+			idx = j
+		}
+	}
+	var val ssa.Value
+	n := 0
+	eachInstr(g.Parent(), func(_ *ssa.BasicBlock, _ int, in ssa.Instruction) {
+		mc, ok := in.(*ssa.MakeClosure)
+		if !ok || mc.Fn != ssa.Value(g) || idx >= len(mc.Bindings) {
+			return
+		}
+		cell, ok := mc.Bindings[idx].(*ssa.Alloc)
+		if !ok {
+			n = 2
+			return
+		}
+		for _, rf := range refs(cell) {
+			if st, ok := rf.(*ssa.Store); ok && st.Addr == ssa.Value(cell) {
+				val = st.Val
+				n++
+			}
+		}
+	})
+	if n != 1 {
+		return nil
+	}
+	return val
+}
+
+// paramRng: the range of an integer parameter of an unexported plain function that is only ever called
+// directly (never used as a value): the join of the argument ranges over all its call sites in the program.
+func (e *E3) paramRng(pr *ssa.Parameter, tr ival) ival {
+	f := pr.Parent()
+	if f == nil || !isRepoFn(f) || f.Signature.Recv() != nil || f.Parent() != nil || token.IsExported(f.Name()) || f.Name() == "init" || f.Name() == "main" {
+		return tr
+	}
+	idx := -1
+	for i, q := range f.Params {
+		if q == pr {
+			idx = i
+		}
+	}
+	if idx < 0 {
+		return tr
+	}
+	if e.fnUse == nil {
+		e.fnUse = map[*ssa.Function]*fnUseT{}
+		for g := range e.p.AllFns() {
+			for _, b := range g.Blocks {
+				for _, in := range b.Instrs {
+					var callee ssa.Value
+					if ci, ok := in.(ssa.CallInstruction); ok {
+						cc := ci.Common()
+						if !cc.IsInvoke() {
+							callee = cc.Value
+							if sc := cc.StaticCallee(); sc != nil {
+								u := e.fnUse[sc]
+								if u == nil {
+									u = &fnUseT{}
+									e.fnUse[sc] = u
+								}
+								u.calls = append(u.calls, cc)
+							}
+						}
+					}
+					for _, op := range in.Operands(nil) {
+						if op == nil || *op == nil {
+							continue
+						}
+						if fn, ok := (*op).(*ssa.Function); ok && *op != callee {
+							u := e.fnUse[fn]
+							if u == nil {
+								u = &fnUseT{}
+								e.fnUse[fn] = u
+							}
+							u.escapes = true
+						}
+					}
+				}
+			}
+		}
+	}
+	u := e.fnUse[f]
+	if u == nil || u.escapes || len(u.calls) == 0 {
+		return tr
+	}
+	out := ival{inf, -inf}
+	for _, cc := range u.calls {
+		if idx >= len(cc.Args) {
+			return tr
+		}
+		a := e.rng(cc.Args[idx])
+		if a.lo < out.lo {
+			out.lo = a.lo
+		}
+		if a.hi > out.hi {
+			out.hi = a.hi
+		}
+	}
+	if out.lo > out.hi {
+		return tr
+	}
+	return out
+}
+
+type fnUseT struct {
+	calls   []*ssa.CallCommon
+	escapes bool
 }
 
 func (e *E3) clobberedBetween(a, b *ssa.UnOp) bool {
@@ -776,6 +895,12 @@ func (e *E3) rng1(v ssa.Value, tr ival) ival {
 			return ival{-a.hi, -a.lo}
 		}
 		if x.Op == token.MUL {
+			// load of an immutable captured variable: the range of the one value it was given
+			if fv, ok := x.X.(*ssa.FreeVar); ok && isIntType(x.Type()) {
+				if val := e.freeVarValue(fv); val != nil {
+					return e.rng(val)
+				}
+			}
 			// load from an immutable integer table element: &tbl[i]
 			if ia, ok := x.X.(*ssa.IndexAddr); ok {
 				if g := globalOf(ia.X); g != nil {
@@ -857,6 +982,11 @@ func (e *E3) rng1(v ssa.Value, tr ival) ival {
 		return tr
 	case *ssa.Phi:
 		return e.rngPhi(x, tr)
+	case *ssa.Parameter:
+		if isIntType(x.Type()) {
+			return e.paramRng(x, tr)
+		}
+		return tr
 	}
 	return tr
 }
